@@ -29,6 +29,16 @@ class Namespace(object):
     def __init__(self, algopy, consts):
         self._a = algopy
         self.c = consts
+        self.cg = None          # the recording CGraph while a program is being traced
+
+    def pause(self):
+        """suspend recording (no-op when the program runs untraced)"""
+        if self.cg is not None:
+            self.cg.trace_off()
+
+    def resume(self):
+        if self.cg is not None:
+            self.cg.trace_on()
 
     def __getattr__(self, name):
         return getattr(self._a, name)
@@ -145,13 +155,20 @@ def get_prog(pname):
     m = re.match(r'random\(seed=(\d+),len=(\d+)\)', pname)
     if m:
         return PR.random_prog(int(m.group(1)), int(m.group(2)))
+    m = re.match(r'(post|pre)-use:(.*)$', pname)
+    if m:
+        return PR.fanout(PR.by_name()[m.group(2)], m.group(1))
     return PR.by_name()[pname]
 
 
 def record(ctx, algopy, A, prog, x):
     cg = algopy.CGraph()
     fx = algopy.Function(x)
-    fy = prog.f(A, fx)
+    A.cg = cg
+    try:
+        fy = prog.f(A, fx)
+    finally:
+        A.cg = None
     cg.trace_off()
     cg.independentFunctionList = [fx]
     cg.dependentFunctionList = [fy]
@@ -314,6 +331,18 @@ def units(tier, seed):
     if tier == 'quick':
         for pn in ['exp', 'x*x', 'sin', 'square', 'reciprocal', 'negative', 'x*x[::-1]', 'expm1', 'logit', 'erf', 'dawsn', 'hyperu', 'polygamma1', 'sqrt', 'log', 'absolute']:
             out.append(Unit('C03/%s/D3,P1' % pn, 'symx.props.c03', 'h_prog', {'pname': pn, 'D': 3, 'P': 1}, dict(opts)))
+    # fan-out: the input is used again by nodes recorded after / before the program's own nodes
+    for prog in PR.catalogue():
+        if 'slow' in prog.tags or prog.group in ('factor', 'fft', 'comp', 'special') or 'halfangle' in prog.tags:
+            continue
+        if prog.name in ('sum(axis=0)', 'sum(square,axis=0)'):
+            continue     # known finding (pb_sum argument order), reported once by the plain programs
+        if prog.group == 'elem' and prog.name not in ('exp', 'sqrt'):
+            continue
+        Pp = 1 if ('clip' in prog.tags or prog.name in ('absolute', 'sign')) else (1 if tier == 'quick' else 2)
+        for where in (['post'] if tier == 'quick' else ['post', 'pre']):
+            out.append(Unit('C03/%s-use:%s/D2,P%d' % (where, prog.name, Pp), 'symx.props.c03', 'h_prog',
+                            {'pname': '%s-use:%s' % (where, prog.name), 'D': 2, 'P': Pp}, dict(opts)))
     n = 12 if tier == 'quick' else 160
     for i in range(n):
         length = 3 + (i % 4) if tier == 'quick' else 3 + (i % 8)
